@@ -552,6 +552,9 @@ type iqResponder struct {
 	r    xml.TokenReader
 	c    chan xmlstream.TokenReadCloser
 	once *sync.Once
+	// err is where the serve loop finds the read error the caller ran into, if
+	// any (written before c is closed, read after).
+	err *error
 }
 
 func (r iqResponder) Token() (xml.Token, error) {
@@ -560,7 +563,17 @@ func (r iqResponder) Token() (xml.Token, error) {
 		// The input stream is broken and nothing more can be read from this
 		// response. Give the stream back to the serve loop now: a caller that
 		// stops at the error without closing the response (the iterators do)
-		// would otherwise block it for ever.
+		// would otherwise block it for ever. The error is the stream's, not
+		// just this caller's: a stream-level construct inside the response (a
+		// comment, a nested stream error) is consumed by the read that reports
+		// it, and the serve loop would carry on behind it as if nothing had
+		// happened.
+		if r.err != nil {
+			r.once.Do(func() {
+				*r.err = err
+				close(r.c)
+			})
+		}
 		/* #nosec */
 		r.Close()
 	}
@@ -631,13 +644,18 @@ func handleInputStream(s *Session, handler Handler) (err error) {
 		emptySpace := xml.Name{Local: start.Name.Local}
 		if ok && readerChan.stanzaName == start.Name || readerChan.stanzaName == emptySpace {
 			inner := xmlstream.Inner(r)
+			var respErr error
 			select {
 			case readerChan.c <- iqResponder{
 				r:    xmlstream.Wrap(inner, start),
 				c:    readerChan.c,
 				once: &sync.Once{},
+				err:  &respErr,
 			}:
 				<-readerChan.c
+				if respErr != nil {
+					return respErr
+				}
 				// Consume the rest of the stream before continuing the loop.
 				_, err = xmlstream.Copy(discard, inner)
 				if err != nil {
